@@ -56,6 +56,8 @@ type RunConfig struct {
 	Lagfree   bool `json:"lagfree"`
 	MidSched  bool `json:"mid_sched"`
 	Legacy24  bool `json:"legacy24,omitempty"`
+	// Avoid: constraints tied to recorded known findings (see known_findings.json)
+	Avoid []string `json:"avoid,omitempty"`
 	World     *World `json:"world"`
 	Ops       []Op   `json:"ops"`
 }
@@ -159,6 +161,12 @@ func newRun(cfg *RunConfig, tape *rt.Tape, traceOn bool) *Run {
 	}
 	r.kube = NewKube(r)
 	r.kube.Lagfree = cfg.Lagfree
+	r.kube.NoLagKinds = map[string]bool{}
+	for _, a := range cfg.Avoid {
+		if a == "pods_no_lag" {
+			r.kube.NoLagKinds[KPod] = true
+		}
+	}
 	r.ha = NewHAProxy(r, r.prefix)
 	r.ha.Legacy24 = cfg.Legacy24
 	r.rt.Net = r.ha
